@@ -218,7 +218,7 @@ Fixpoint paren_safe_at (top : bool) (e : expr) : bool :=
   | EMeth _ _ args | ECall _ args => all args
   | EBool p _ l r => (p || top) && closed l && closed r && paren_safe_at false l && paren_safe_at false r
   | ENot p a => (p || top) && closed a && paren_safe_at false a
-  | ECmp p l rest => (p || top) && closed l && paren_safe_at false l &&
+  | ECmp p l rest => (p || top) && closed l && paren_safe_at false l && match rest with [] => false | _ :: _ => true end &&
                      (fix go (rs : list (cmpop * expr)) : bool :=
                         match rs with [] => true | (_, b) :: t => closed b && paren_safe_at false b && go t end) rest
   | EListComp elt _ it | EGen _ elt _ it => paren_safe_at true elt && paren_safe_at true it
